@@ -13,6 +13,7 @@ import (
 	"sync"
 
 	"github.com/lugu/qiloop/type/value"
+	"github.com/lugu/qiloop/vhook"
 
 	"github.com/ftrvxmtrx/fd"
 )
@@ -89,10 +90,13 @@ func NewHandler(f Filter, ch chan<- *Message, cl Closer) *Handler {
 // closeWith call the closer callback and then close the consumer.
 // TODO: update API to call closer only on error.
 func (h *Handler) closeWith(err error) {
+	vhook.Gate("handler.closeWith", h)
 	if h.closer != nil {
 		h.closer(err)
 	}
+	vhook.Emit("endpoint", nil, "closer", "h", vhook.ID(h), "err", err != nil)
 	close(h.consumer)
+	vhook.Emit("endpoint", nil, "qclose", "h", vhook.ID(h))
 }
 
 type endPoint struct {
@@ -235,9 +239,11 @@ func (e *endPoint) closeWith(err error) error {
 
 	e.handlersMutex.Lock()
 	defer e.handlersMutex.Unlock()
+	vhook.Emit("endpoint", e, "shutdown", "err", err != nil)
 
 	for id, handler := range e.handlers {
 		if handler != nil {
+			vhook.Emit("endpoint", e, "detach", "slot", id, "h", vhook.ID(handler))
 			go handler.closeWith(err)
 			e.handlers[id] = nil
 		}
@@ -257,10 +263,13 @@ func (e *endPoint) RemoveHandler(id int) error {
 	e.handlersMutex.Lock()
 	defer e.handlersMutex.Unlock()
 	if id >= 0 && id < len(e.handlers) && e.handlers[id] != nil {
+		vhook.Emit("endpoint", e, "remove", "slot", id, "h", vhook.ID(e.handlers[id]))
 		e.handlers[id].closeWith(nil)
 		e.handlers[id] = nil
+		vhook.Emit("endpoint", e, "removed", "slot", id)
 		return nil
 	}
+	vhook.Emit("endpoint", e, "remove_err", "slot", id)
 	return fmt.Errorf("invalid handler id: %d", id)
 }
 
@@ -273,10 +282,12 @@ func (e *endPoint) MakeHandler(f Filter, queue chan<- *Message, cl Closer) int {
 	for i, handler := range e.handlers {
 		if handler == nil {
 			e.handlers[i] = newHandler
+			vhook.Emit("endpoint", e, "make", "slot", i, "h", vhook.ID(newHandler), "len", len(e.handlers))
 			return i
 		}
 	}
 	e.handlers = append(e.handlers, newHandler)
+	vhook.Emit("endpoint", e, "make", "slot", len(e.handlers)-1, "h", vhook.ID(newHandler), "len", len(e.handlers))
 	return len(e.handlers) - 1
 }
 
@@ -313,6 +324,7 @@ var ErrNoHandler = errors.New("message dropped: no handler registered")
 func (e *endPoint) dispatch(msg *Message) error {
 	e.handlersMutex.Lock()
 	defer e.handlersMutex.Unlock()
+	vhook.Emit("endpoint", e, "dispatch", "id", msg.Header.ID, "type", msg.Header.Type, "service", msg.Header.Service, "object", msg.Header.Object, "action", msg.Header.Action, "size", msg.Header.Size)
 	if len(e.handlers) == 0 {
 		return ErrNoHandler
 	}
@@ -325,10 +337,12 @@ func (e *endPoint) dispatch(msg *Message) error {
 		if matched {
 			select {
 			case h.consumer <- msg:
+				vhook.Emit("endpoint", e, "deliver", "slot", i, "h", vhook.ID(h), "id", msg.Header.ID)
 				if ret == ErrNoMatch {
 					ret = nil
 				}
 			default:
+				vhook.Emit("endpoint", e, "blocked", "slot", i, "h", vhook.ID(h), "id", msg.Header.ID)
 				ret = ErrConsumerBlocked
 				if msg.Header.Type == Call {
 					hdr := NewHeader(Error,
@@ -344,6 +358,7 @@ func (e *endPoint) dispatch(msg *Message) error {
 			}
 		}
 		if !keep {
+			vhook.Emit("endpoint", e, "selfremove", "slot", i, "h", vhook.ID(h))
 			h.closeWith(nil)
 			e.handlers[i] = nil
 		}
@@ -360,6 +375,7 @@ func (e *endPoint) process() {
 		msg := new(Message)
 		err = msg.Read(e.stream)
 		if err != nil {
+			vhook.Emit("endpoint", e, "read_err")
 			e.closeWith(err)
 			return
 		}
